@@ -566,3 +566,14 @@ package trend
 //@ use psum_cong(v, w, k + P)
 //@ use psum_cong(v, w, k)
 //@ use div_scale_r(lam, winS(mulS(c, v), P)[k], winS(v, P)[k])
+//@ lemma mulS_vscale(c stream, v stream, d stream, w stream, mu real, j int)
+//@ requires[C18] d[j] == c[j] && w[j] == mu * v[j]
+//@ ensures[C18] mulS(d, w)[j] == mu * mulS(c, v)[j]
+//@ use mul_assoc(mu, c[j], v[j])
+//@ lemma vwmaS_vscale(c stream, v stream, d stream, w stream, mu real, P int, n int, k int)
+//@ requires[C18] mu > 0 && P >= 1 && k >= 0 && k + P <= n && (forall j :: 0 <= j && j < n ==> d[j] == c[j] && w[j] == mu * v[j]) && winS(v, P)[k] != 0
+//@ ensures[C18] vwmaS(d, w, P)[k] == vwmaS(c, v, P)[k]
+//@ use forall j :: mulS_vscale(c, v, d, w, mu, j)
+//@ use smaS_scale(mulS(c, v), mulS(d, w), mu, P, k)
+//@ use smaS_scale(v, w, mu, P, k)
+//@ use ratio_scale(mu, winS(mulS(c, v), P)[k], winS(v, P)[k])
